@@ -9,6 +9,8 @@ import time
 
 import z3
 
+from .budget import set_budget, wall_ms
+
 from .paths import model_to_dict
 
 CVC5 = shutil.which("cvc5") or "/usr/bin/cvc5"
@@ -36,8 +38,8 @@ class Session:
             t0 = time.time()
             try:
                 p = subprocess.run(
-                    [CVC5, f"--tlimit={self.timeout_ms}", "--nl-ext-tplanes", path],
-                    capture_output=True, text=True, timeout=self.timeout_ms / 1000 + 10)
+                    [CVC5, f"--tlimit={wall_ms(self.timeout_ms) // 2}", "--nl-ext-tplanes", path],
+                    capture_output=True, text=True, timeout=wall_ms(self.timeout_ms) / 2000 + 10)
                 out = p.stdout.strip().splitlines()
                 res = out[0] if out else "unknown"
             except subprocess.TimeoutExpired:
@@ -63,9 +65,9 @@ class Session:
             # style proofs), then plain z3 with the full budget, then nlsat on the
             # Ackermannised problem, then cvc5
             quick = min(1500, self.timeout_ms)
-            s.set("timeout", quick)
+            set_budget(s, quick)
             r = s.check()
-            s.set("timeout", self.timeout_ms)
+            set_budget(s, self.timeout_ms)
             self.stats["z3"] += 1
             self.stats["z3_time"] += time.time() - t0
             backend = "z3"
@@ -81,9 +83,9 @@ class Session:
                     t1 = time.time()
                     # generous budget: this runs for the few obligations that carry hints only, and a
                     # timeout here would turn a known finding into an undecided run on a loaded machine
-                    s.set("timeout", max(self.timeout_ms, 120000))
+                    set_budget(s, max(self.timeout_ms, 120000))
                     rh = s.check()
-                    s.set("timeout", self.timeout_ms)
+                    set_budget(s, self.timeout_ms)
                     if rh == z3.sat:
                         hint_model = model_to_dict(s.model())
                         hint_model["__hint__"] = "counter-model found under the contract's search hints " + \
@@ -173,9 +175,9 @@ class Session:
                     s.push()
                     try:
                         s.add(z3.Not(z3.Or(*regions)))
-                        s.set("timeout", max(self.timeout_ms, 120000))
+                        set_budget(s, max(self.timeout_ms, 120000))
                         r2 = s.check()
-                        s.set("timeout", self.timeout_ms)
+                        set_budget(s, self.timeout_ms)
                         if r2 == z3.sat:
                             model = model_to_dict(s.model())
                         if r2 == z3.unknown:
